@@ -2,6 +2,7 @@ SPECIFICATION Spec
 CONSTANTS
   MaxDev = 2
   NamesSet = {"utf8", "legacy"}
+  SchemaSet = {"prometheus", "thanos"}
   CoreOnly = FALSE
   Gaps = {}
 INVARIANTS Inv_C01_ModuloKnown
